@@ -471,6 +471,30 @@ theorem small_range_threshold (ln : Rat → Rat) (p S S' : Nat) (h0 : 0 < S') (h
     rawQ p S ≤ rawQ p S' :=
   ⟨small_iff_regsum ln p S (by omega), small_antitone ln p S S' h0 h, rawQ_antitone p S S' h0 h⟩
 
+/-! ### audit round: totalised reads are never out of range; the size test is the precision test -/
+
+/-- every array access the model totalises with a default (`getD … 0`) is in range on well-formed
+    states: the word of the register `offerHashed` updates, and every word `Cardinality`/`Get`
+    reads for the registers `0 … 2^p − 1` — so no theorem above holds because of a default value -/
+theorem accesses_in_range (p : Nat) (ws : Array Nat) (hp : PrecOK p) (hw : WFState p ws) :
+    (∀ h, Hashed h → idx p h / 6 < ws.size) ∧ (∀ r, r < 2 ^ p → r / 6 < ws.size) := by
+  have hs := HLL.sizes_ok p hp
+  refine ⟨fun h hh => ?_, fun r hr => ?_⟩
+  · have := idx_in_range p ws h hp hw hh; omega
+  · rw [hw.size]
+    have : r < 6 * wordCount (2 ^ p) := Nat.lt_of_lt_of_le hr hs
+    omega
+
+/-- the code's `AddAll` guard compares `Sizeof()`; on counters of valid precision that is exactly
+    the precision test of the world model (`argsOK`, `addAll`) -/
+theorem size_test_is_precision_test (p q : Nat) (hp : PrecOK p) (hq : PrecOK q) (a b : Array Nat)
+    (ha : WFState p a) (hb : WFState q b) : a.size = b.size ↔ p = q := by
+  constructor
+  · intro h
+    rw [ha.size, hb.size] at h
+    exact wordCount_injective p (by have := hp.hi; omega) q (by have := hq.hi; omega) hp.lo hq.lo h
+  · intro h; subst h; rw [ha.size, hb.size]
+
 /-! ### non-vacuity -/
 
 example : PrecOK 4 ∧ PrecOK 10 ∧ PrecOK 16 := ⟨⟨by decide, by decide⟩, ⟨by decide, by decide⟩, ⟨by decide, by decide⟩⟩
@@ -522,5 +546,20 @@ example : ∀ op ∈ [HOp.new 4, .offer 0 4026531840, .merge 0 [0, 0]], OpOK op 
   · show (4026531840 : Nat) < 4294967296; decide
   · trivial
 example : murmurLong 1 = 1527037976 ∧ murmur32 4294967295 = 114743869 := by decide
+
+-- audit round examples
+example : WInv (run [.new 4, .offer 0 4026531840, .new 4, .offer 1 7]) :=
+  histories_keep_invariant _ (by
+    intro op h
+    simp only [List.mem_cons, List.mem_nil_iff, or_false] at h
+    rcases h with rfl | rfl | rfl | rfl
+    · exact ⟨by decide, by decide⟩
+    · show (4026531840 : Nat) < 4294967296; decide
+    · exact ⟨by decide, by decide⟩
+    · show (7 : Nat) < 4294967296; decide)
+example : argsOK (run [.new 4, .offer 0 4026531840, .new 4, .offer 1 7]) 4 [1, 0, 1] = true := by decide +kernel
+example : argsOK (run [.new 4, .new 5]) 4 [1] = false := by decide +kernel
+example : (run [.new 4, .new 5, .addAll 0 1]).length = 2 ∧ (run [.new 4, .new 5, .merge 0 [1]]).length = 2 := by
+  decide +kernel
 
 end C14
